@@ -4,6 +4,7 @@
 # discrete-time checks with extend().
 import json
 import math
+import random
 from harness import fml, dense
 from harness.common import parse_fields
 
@@ -354,7 +355,7 @@ SEMS = ['standard', 'output-robustness', 'input-robustness', 'output-vacuity', '
 
 
 class D06(Extra):
-    RULE = ('dense-time formulas x 5 semantics x input/output assignments: dense offline evaluate() and (past-time formulas) dense online update() of the IA-STL '
+    RULE = ('dense-time formulas x 5 semantics x input/output assignments x {float variables, variables of an imported object type read through a field xa.value / xa.inner.v (every corner formula x every io assignment x 5 semantics, and a quarter of the random cases)}: dense offline evaluate() and (past-time formulas) dense online update() of the IA-STL '
             'specification classes against the tick semantics rhoZ in which every insensitive predicate contributes +-inf / 0 (pk_spec); the offline result is also compared list for list with the model of the IA visitors (deval_pk)')
 
     def gen(self, rng, tier):
@@ -376,6 +377,19 @@ class D06(Extra):
             nv = need_vars(f, nv)
             out.append({'f': f, 'nv': nv, 'sigs': gen_sigs(rng, nv, minn=1), 'io': [rng.randint(0, 1) for _ in range(nv)], 'sem': rng.choice(SEMS),
                         'ctor': rng.choice(['combined', 'split']), 'n': 0})
+        # variables declared with an imported object type and read through a field (xa.value, xa.inner.v); the io declaration names the variable
+        from harness.runner import gen_obj
+        orng = random.Random(rng.getrandbits(64))
+        for c in out:
+            if orng.random() < 0.25:
+                c['obj'] = gen_obj(orng, c['nv'], force=True)
+        shapes = [['value', 'value'], ['value', ''], ['', 'inner.v'], ['inner.v', 'value']]
+        for k, f in enumerate(base):
+            sigs = gen_sigs(orng, 2, minn=1)
+            for io in ([0, 0], [0, 1], [1, 0], [1, 1]):
+                for sem in SEMS:
+                    out.append({'f': f, 'nv': 2, 'sigs': sigs, 'io': io, 'sem': sem, 'ctor': orng.choice(['combined', 'split']), 'n': 0,
+                                'obj': shapes[(k + io[0] + 2 * io[1]) % len(shapes)]})
         return out
 
     def online(self, c):
@@ -399,7 +413,8 @@ class D06(Extra):
         out = [offline_case(c['f'], c['sigs'], c['nv'], **kw)]
         if self.online(c):
             out.append(online_case(c['f'], c['sigs'], c['nv'], **kw))
-        return out
+        from harness.runner import with_object_fields
+        return [with_object_fields(x, c.get('obj')) for x in out]
 
     def judge(self, c, mlines, ires):
         if mlines[0].startswith('ERROR'):
@@ -408,7 +423,9 @@ class D06(Extra):
             return 'dropped', None
         t0, tmax, tmin = domain(c['f'], c['sigs'])
         spec = dense.parse_rhoz(mlines[0], t0)
-        det = {'spec': 'out = ' + text(c['f']), 'semantics': c['sem'], 'io': c['io'], 'constructor': c.get('ctor'), 'signals_ticks': c['sigs'], 'tick_s': dense.SCALE,
+        from harness.runner import with_object_fields
+        det = {'spec': with_object_fields({'spec': 'out = ' + text(c['f']), 'vars': fml.VARS[:c['nv']]}, c.get('obj'))['spec'], 'object_fields': c.get('obj'),
+               'semantics': c['sem'], 'io': c['io'], 'constructor': c.get('ctor'), 'signals_ticks': c['sigs'], 'tick_s': dense.SCALE,
                'expected': {'source': 'rhoZ with pk_spec (insensitive predicates contribute +-inf / 0), per tick from the start of the domain', 'values': [fml.val_sx(spec[t]) for t in sorted(spec)]}}
         if any(c['sigs'][i][0][0] != 0 for i in fml.fvars(c['f'])) and (fml.ops(c['f']) & (fml.TUN | fml.TBIN)):
             return 'dropped', None      # KF-C04-late-start territory
@@ -458,7 +475,13 @@ class D06(Extra):
         return False
 
     def features(self, c):
-        return ['dense', 'dense-sem:' + c['sem']]
+        obj = c.get('obj') or []
+        used = [i for i in fml.fvars(c['f']) if i < len(obj) and obj[i]]
+        fs = ['dense', 'dense-sem:' + c['sem']]
+        if used:
+            fs.append('dense:object-field-variable')
+            fs += sorted(set('dense:object-field:' + ('input' if c['io'][i] else 'output') for i in used))
+        return fs
 
 
 # ---------------------------------------------------------------- C07
@@ -705,11 +728,15 @@ class D12(Extra):
 UNS = {'s': 10**9, 'ms': 10**6, 'us': 10**3, 'ns': 1}
 
 
-def dense_bound(rng, b, e, default_unit, style):
-    """[b, e] ticks (0.25 s each) spelled in a unit notation; style: plain (numbers in the default unit) / both / begin / end"""
+def dense_bound(rng, b, e, default_unit, style, units=None):
+    """[b, e] ticks (0.25 s each) spelled in a unit notation; style: plain (numbers in the default unit) / both / begin / end /
+    mixed (explicit units on both ends and the two units DIFFER, [1s:3000ms]; units = [ub, ue] forces the pair)"""
     from harness.c08 import dec
     bn, en = b * 250 * 10**6, e * 250 * 10**6            # nanoseconds
     sep = rng.choice([',', ':'])
+    if style == 'mixed':
+        ub, ue = units if units else rng.choice([(x, y) for x in ('s', 'ms', 'us') for y in ('s', 'ms', 'us') if x != y])
+        return '[%s%s%s%s%s]' % (dec(bn, ub), ub, sep, dec(en, ue), ue)
     if style == 'plain':
         return '[%s%s%s]' % (dec(bn, default_unit), sep, dec(en, default_unit))
     ub, ue = rng.choice(['s', 'ms', 'us']), rng.choice(['s', 'ms', 'us'])
